@@ -345,6 +345,17 @@ def gen_stacks(rnd, nmax=8):
                 x[a, b, s] = x[b, a, s] = float(rnd.choice((0, 0, 1, 2, 3)) + (2 if (a, b) in effect else 0))
             for s in range(ny):
                 y[a, b, s] = y[b, a, s] = float(rnd.choice((0, 0, 1, 2, 3)))
+    if dt == 'smallint' and paired:
+        # some connections differ by the same non-zero constant in every pair (an exact shift): +-inf observed, ordinary
+        # finite statistics once the signs are flipped
+        for (a, b) in pairs:
+            if rnd.random() < 0.15:
+                y[a, b, :] = y[b, a, :] = x[a, b, :] + rnd.choice((1.0, 2.0, -1.0))
+    if 0.25 <= r < 0.33:
+        # the unit of measurement: t statistics are scale-free, absolute tolerances are not
+        sc = rnd.choice((1e-9, 1e-6, 1e3, 1e6))
+        x, y = x * sc, y * sc
+        dt = 'scaled'
     if r < 0.25:
         # count-like data in a narrow integer type (streamline counts): same statistics, other container
         dt = rnd.choice(('int8', 'int16', 'uint8', 'uint16', 'int32', 'int64', 'float32'))
